@@ -24,6 +24,11 @@ pub struct NetHistory {
     pub data: Data,
     /// (step number, indices of the samples whose gradients are summed for this step)
     pub steps: Vec<(i32, Vec<usize>)>,
+    /// indices of steps (all with step number 1) that are delivered through the public
+    /// `Network::learn` (one epoch, one batch holding the step's samples) instead of the
+    /// update hook: the optimizer state must survive from one `learn` call to the next
+    #[serde(default)]
+    pub learn_steps: Vec<usize>,
 }
 
 pub fn generate(rng: &mut Rng, opt: &OptCfg) -> NetHistory {
@@ -41,7 +46,7 @@ pub fn generate(rng: &mut Rng, opt: &OptCfg) -> NetHistory {
     let count = if crate::gen::scale() && !very_wide(&net) { rng.range(40, 300) } else { rng.range(1, 12) };
     let style = rng.below(3);
     let per_epoch = rng.range(1, 3);
-    let steps = (0..count)
+    let steps: Vec<(i32, Vec<usize>)> = (0..count)
         .map(|t| {
             let stepnr = match style {
                 0 => t as i32 + 1,
@@ -53,7 +58,15 @@ pub fn generate(rng: &mut Rng, opt: &OptCfg) -> NetHistory {
         })
         .collect();
     let (clock, _) = draw_clock(rng);
-    NetHistory { net, clock, data, steps }
+    let mut learn_steps = Vec::new();
+    if rng.chance(0.35) {
+        for (t, (stepnr, _)) in steps.iter().enumerate() {
+            if *stepnr == 1 && rng.chance(0.6) {
+                learn_steps.push(t);
+            }
+        }
+    }
+    NetHistory { net, clock, data, steps, learn_steps }
 }
 
 /// One parameter tensor's gradient for a step, in the parameter's own row-major order.
@@ -114,7 +127,7 @@ fn execute(h: &NetHistory) -> Recorded {
     let ys = targets(&h.data.y);
     let mut rec = Recorded { params: vec![parameters(&net)], grads: Vec::new() };
     let layers = h.net.layers.len();
-    for (stepnr, group) in &h.steps {
+    for (t, (stepnr, group)) in h.steps.iter().enumerate() {
         let mut sum_w: Vec<tensor::Tensor> = Vec::new();
         let mut sum_b: Vec<Option<tensor::Tensor>> = Vec::new();
         set_phase("gradients");
@@ -143,7 +156,15 @@ fn execute(h: &NetHistory) -> Recorded {
         }
         rec.grads.push(g);
         set_phase("update");
-        net.verif_update(*stepnr, sum_w, sum_b);
+        if *stepnr == 1 && h.learn_steps.contains(&t) {
+            // the same step through the public route: one epoch (step number 1), one batch
+            set_phase("update:learn");
+            let bx: Vec<&tensor::Tensor> = group.iter().map(|i| &xs[*i]).collect();
+            let by: Vec<&tensor::Tensor> = group.iter().map(|i| &ys[*i]).collect();
+            net.learn(&bx, &by, None, group.len(), 1, None);
+        } else {
+            net.verif_update(*stepnr, sum_w, sum_b);
+        }
         rec.params.push(parameters(&net));
     }
     rec
@@ -167,6 +188,7 @@ pub fn check(opt: &OptCfg, h: &NetHistory, stats: &mut Stats) -> Outcome {
         "network_level_conv_filters_ge_2",
         h.net.layers.iter().any(|l| matches!(l, LayerCfg::Conv { filters, .. } | LayerCfg::Deconv { filters, .. } if *filters >= 2)),
     );
+    stats.probe("network_level_step_via_learn", h.steps.iter().enumerate().any(|(t, (nr, _))| *nr == 1 && t >= 1 && h.learn_steps.contains(&t)));
     stats.probe("network_level_feedback", h.net.layers.iter().any(|l| matches!(l, LayerCfg::Feedback { loops, .. } if *loops >= 2)));
     let env = Env::reference(h.clock);
     let (rec, info) = run_env(&env, |_| execute(h));
@@ -185,7 +207,12 @@ pub fn check(opt: &OptCfg, h: &NetHistory, stats: &mut Stats) -> Outcome {
                     signature: json!({ "optimizer": opt.kind(), "level": "network" }),
                 });
             }
-            if phase() == "update" && !documented_unsupported(&e) {
+            // `learn` documents one panic of its own ("If the loss is NaN"); the forward and
+            // backward passes of the same samples have already completed in phase "gradients"
+            if phase() == "update:learn" && panic_class(&e).contains("Loss is NaN") {
+                return Outcome::Degenerate("learn-delivered step: the loss is NaN (documented panic)".into());
+            }
+            if (phase() == "update" || phase() == "update:learn") && !documented_unsupported(&e) {
                 return Outcome::Violation(Violation {
                     class: "network_update_panics".into(),
                     detail: format!("gradients were computed, but the optimizer step through Network::update panics: {}", panic_class(&e)),
@@ -328,6 +355,17 @@ pub fn shrink(h: &NetHistory) -> Vec<NetHistory> {
         if keep >= 1 && keep < h.steps.len() {
             let mut n = h.clone();
             n.steps.truncate(keep);
+            n.learn_steps.retain(|t| *t < keep);
+            out.push(n);
+        }
+    }
+    if !h.learn_steps.is_empty() {
+        let mut n = h.clone();
+        n.learn_steps.clear();
+        out.push(n);
+        for i in 0..h.learn_steps.len() {
+            let mut n = h.clone();
+            n.learn_steps.remove(i);
             out.push(n);
         }
     }
